@@ -332,3 +332,297 @@ def k2_show(obs, key, tag="show"):
     out = coq_eval("k2_show_" + tag, "\n".join(body))
     m = re.search(r'=\s*"(.*)"\s*:\s*string', out, re.S)
     return m.group(1).replace('""', '"') if m else out
+
+
+# ---------------------------------------------------------------------------------------
+# harness: runner (K3)
+
+RT_SPEC = ("struct rt_elem { unsigned int a; };\nstruct rt_velem { string s<>; };\n"
+           "struct rt_oelem { opaque d<>; };\n")
+
+_tables = None
+
+
+def tables():
+    """keyword tables regenerated from the source (the names the real emitters escape)"""
+    global _tables
+    if _tables is None:
+        t = gen_tables.generate(REPO)
+        kw = re.search(r'Definition safe_keywords : list string := \[(.*?)\]\.', t).group(1)
+        _tables = {"safe_keywords": re.findall(r'"([^"]*)"', kw)}
+    return _tables
+
+
+def safe_name(s):
+    if s in tables()["safe_keywords"]:
+        return s + "_v"
+    if s in ("TRUE", "FALSE"):
+        return s.lower()
+    return s
+
+
+def variant_name(s):
+    return ("v_" + s) if s[:1].isdigit() else s
+
+
+def bt_eq(a, b):
+    return a == b
+
+
+def canon_impls(i, ast):
+    """Rust source of the Canon visitors for the types of module s<i>, generated from the
+    dumped real AST: it names every field and variant, so it only compiles if the public
+    shape is the documented one."""
+    out = []
+    gens = set(ast["generics"])
+    names = []
+    for key, t in ast["types"]:
+        if "Struct" in t:
+            s = t["Struct"]
+            name = s["name"]
+            ty = "s%d::xdr::%s%s" % (i, name, "<Bytes>" if name in gens else "")
+            body = ['o.push_str("S:%s{");' % name]
+            for k, f in enumerate(s["fields"]):
+                if k:
+                    body.append("o.push(',');")
+                body.append("self.%s.canon(o, c);" % safe_name(f["name"]))
+            body.append("o.push('}');")
+        elif "Union" in t:
+            u = t["Union"]
+            name = u["name"]
+            ty = "s%d::xdr::%s%s" % (i, name, "<Bytes>" if name in gens else "")
+            arms = []
+            seen = set()
+            for c in u["cases"]:
+                for l in c["values"]:
+                    v = variant_name(l)
+                    if v in seen:
+                        continue
+                    seen.add(v)
+                    arms.append('Self::%s(x) => { o.push_str("E:%s::%s("); x.canon(o, c); o.push(\')\'); }'
+                                % (v, name, v))
+            for l in u["void_cases"]:
+                v = variant_name(l)
+                if v in seen:
+                    continue
+                seen.add(v)
+                arms.append('Self::%s => o.push_str("E:%s::%s"),' % (v, name, v))
+            if u["default"] is not None and "default" not in seen:
+                arms.append('Self::default(x) => { o.push_str("E:%s::default("); x.canon(o, c); o.push(\')\'); }'
+                            % name)
+            body = ["match self {"] + arms + ["}"]
+        elif "Enum" in t:
+            e = t["Enum"]
+            name = e["name"]
+            ty = "s%d::xdr::%s" % (i, name)
+            seen = set()
+            arms = []
+            for v in e["variants"]:
+                if v["name"] in seen:
+                    continue
+                seen.add(v["name"])
+                arms.append('Self::%s => o.push_str("E:%s::%s"),' % (v["name"], name, v["name"]))
+            body = ["match self {"] + arms + ["}"]
+        else:
+            td = t["Typedef"]
+            alias = td["alias"]
+            base = alias.get("None") or (alias.get("Fixed") or alias.get("Var"))[0]
+            if base == td["target"]:
+                continue
+            name = base["Ident"] if isinstance(base, dict) else None
+            if name is None:
+                continue
+            ty = "s%d::xdr::%s%s" % (i, name, "<Bytes>" if name in gens else "")
+            body = ['o.push_str("N:%s(");' % name, "self.0.canon(o, c);", "o.push(')');"]
+        if name != key:
+            continue  # an entry overwritten by a later duplicate: outside the subset
+        names.append((name, ty))
+        out.append("impl Canon for %s {\nfn canon(&self, o: &mut String, c: &Ctx) {\n%s\n}\n}"
+                   % (ty, "\n".join(body)))
+    return "\n".join(out), names
+
+
+def build_runner(mods, tag):
+    """mods: list of (index, path of generated text, ast json).  Module 'srt' (generated from
+    RT_SPEC) is always added.  Returns (exe, types {index: [names]}, failed [index])."""
+    d = sync_crate("runner")
+    rt = run_front([RT_SPEC], tag + "_rt")[0]
+    if rt["gen_default"]["outcome"] != "ok":
+        raise TieBroken("the runtime specification is no longer accepted by generate()")
+    failed = []
+    mods = list(mods)
+    for attempt in range(6):
+        parts = ["mod srt { include!(%s); }" % json.dumps(rt["gen_default"]["path"])]
+        dispatch = []
+        sizes = []
+        types = {}
+        for i, path, ast in mods:
+            parts.append("mod s%d { include!(%s); }" % (i, json.dumps(path)))
+            src, names = canon_impls(i, ast)
+            parts.append(src)
+            types[i] = [n for n, _ in names]
+            for n, ty in names:
+                dispatch.append('(%d, "%s") => case!(s%d::xdr::Error, s%d::xdr::WireSize, %s, alloc, off),'
+                                % (i, n, i, i, ty))
+                sizes.append('println!("size %d %s {}", std::mem::size_of::<%s>());' % (i, n, ty))
+        rt_src, rt_names = canon_impls(0, rt["ast"])
+        parts.append(rt_src.replace("s0::xdr::", "srt::xdr::"))
+        parts.append("fn dispatch(spec: usize, ty: &str, alloc: &Bytes, off: usize) -> String {\n"
+                     "if ty.starts_with('@') { return reader_dispatch(ty, alloc, off); }\n"
+                     "match (spec, ty) {\n%s\n_ => \"NOCASE\".to_string(),\n}\n}" % "\n".join(dispatch))
+        parts.append("fn print_sizes() {\n%s\n}" % "\n".join(sizes))
+        gen_rs = "\n".join(parts) + "\n"
+        key = hashlib.sha256((src_hash() + gen_rs + open(os.path.join(d, "src/main.rs")).read()).encode()).hexdigest()[:20]
+        for _, path, _a in mods:
+            key = hashlib.sha256((key + open(path).read()).encode()).hexdigest()[:20]
+        cached = os.path.join(WORK, "cache", "runner_" + key)
+        if os.path.exists(cached):
+            return cached, types, failed
+        with open(os.path.join(d, "src/gen.rs"), "w") as f:
+            f.write(gen_rs)
+        r = cargo_build(d)
+        if r.returncode == 0:
+            os.makedirs(os.path.join(WORK, "cache"), exist_ok=True)
+            shutil.copyfile(os.path.join(TARGET, "debug", "runner"), cached)
+            os.chmod(cached, 0o755)
+            return cached, types, failed
+        # find the modules that do not compile
+        bad = set()
+        for m in re.finditer(r'/(\d{5})\.(?:default|clone)\.rs', r.stdout):
+            bad.add(m.group(1))
+        for m in re.finditer(r'\bs(\d+)::xdr::', r.stdout):
+            bad.add("%05d" % int(m.group(1)))
+        bad_idx = set()
+        for i, path, _a in mods:
+            if os.path.basename(path)[:5] in bad or ("%05d" % i) in bad:
+                bad_idx.add(i)
+        if not bad_idx:
+            raise TieBroken("runner harness does not build:\n" + r.stdout[-4000:])
+        for b in sorted(bad_idx):
+            failed.append((b, r.stdout))
+        mods = [m for m in mods if m[0] not in bad_idx]
+    raise TieBroken("runner harness does not build after dropping modules")
+
+
+def run_runner(exe, cases, mem_limit=4 << 30, stack_limit=None):
+    """cases: list of 'spec type off hex' strings.  Returns one output line per case; a case
+    that kills the process is reported as 'ABORT <signal>' and the runner is restarted."""
+    import resource
+    import signal
+
+    def limits():
+        resource.setrlimit(resource.RLIMIT_AS, (mem_limit, mem_limit))
+        if stack_limit:
+            resource.setrlimit(resource.RLIMIT_STACK, (stack_limit, stack_limit))
+
+    out = []
+    pos = 0
+    while pos < len(cases):
+        p = subprocess.run([exe], input="\n".join(cases[pos:]) + "\n", stdout=subprocess.PIPE,
+                           stderr=subprocess.PIPE, text=True, preexec_fn=limits, timeout=1800)
+        lines = p.stdout.split("\n")
+        if lines and lines[-1] == "":
+            lines.pop()
+        out.extend(lines[:len(cases) - pos])
+        pos += len(lines)
+        if pos < len(cases):
+            sig = -p.returncode if p.returncode < 0 else p.returncode
+            try:
+                name = signal.Signals(sig).name
+            except Exception:
+                name = str(sig)
+            why = "alloc" if "memory allocation" in p.stderr else ("stack" if "overflowed its stack" in p.stderr else "")
+            out.append("ABORT %s %s" % (name, why))
+            pos += 1
+    return out[:len(cases)]
+
+
+ALLOC_RE = re.compile(r' alloc=(\d+)(?: peak=(\d+))?')
+
+
+def strip_alloc(line):
+    return ALLOC_RE.sub("", line)
+
+
+def allocs(line):
+    return [(int(a), int(b) if b else 0) for a, b in ALLOC_RE.findall(line)]
+
+
+def dexp_of_reader(t):
+    p = t.split(":")
+
+    def mx(s):
+        return "None" if s == "-" else "(Some %s%%N)" % s
+    k = p[0]
+    prim = {"@u32": "PU32", "@u64": "PU64", "@i32": "PI32", "@i64": "PI64", "@f32": "PF32",
+            "@f64": "PF64", "@bool": "PBool"}
+    if k in prim:
+        return "(KReader (EPrim %s))" % prim[k]
+    if k == "@bytes":
+        return "(KReader (EBytes %s%%N))" % p[1]
+    if k == "@varbytes":
+        return "(KReader (EVarBytes %s))" % mx(p[1])
+    if k == "@string":
+        return "(KReader (EString %s))" % mx(p[1])
+    if k == "@vararray":
+        return "(KReader (EVarArray %s %s %s))" % (ct.cstr(p[1]), "true" if p[1] == "rt_oelem" else "false", mx(p[2]))
+    if k == "@wsz":
+        return "(KWsz %s %s%%N)" % (ct.cstr(p[1]), p[2])
+    raise ValueError(t)
+
+
+def k3(groups, tag):
+    """groups: list of (ast json, [(type-or-reader, off, hex, real line)]).  Compares the
+    model's line with the real one (alloc= fields removed).  Returns (n, disagreements)
+    where a disagreement is (group index, case index)."""
+    flat = []
+    for gi, (ast, cases) in enumerate(groups):
+        for ci in range(len(cases)):
+            flat.append((gi, ci))
+    # shard by groups, keeping roughly equal numbers of cases
+    shards, cur, cnt = [], [], 0
+    per = max(1, len(flat) // 16)
+    for gi, (ast, cases) in enumerate(groups):
+        for start in range(0, len(cases), per):
+            chunk = list(range(start, min(len(cases), start + per)))
+            cur.append((gi, chunk))
+            cnt += len(chunk)
+            if cnt >= per:
+                shards.append(cur)
+                cur, cnt = [], 0
+    if cur:
+        shards.append(cur)
+
+    def run(sh_i):
+        si, sh = sh_i
+        body = ["From XdrModel Require Import Canon.", "Open Scope string_scope."]
+        evals = []
+        local = []
+        for k, (gi, chunk) in enumerate(sh):
+            ast, cases = groups[gi]
+            rows = []
+            for ci in chunk:
+                kind, off, hx, real = cases[ci]
+                kk = dexp_of_reader(kind) if kind.startswith("@") else "(KType %s)" % ct.cstr(kind)
+                rows.append("(%d%%N, %s, %d%%N, %s, %s)" % (len(local), kk, off, ct.cstr(hx),
+                                                          ct.cstr(strip_alloc(real))))
+                local.append((gi, ci))
+            body.append("Definition a%d : ast := %s." % (k, ct.ast(ast)))
+            body.append("Definition c%d : list (N * k3_kind * N * string * string) := [%s]." % (k, ";\n".join(rows)))
+            evals.append("k3_run2 a%d c%d" % (k, k))
+        body.append("Eval vm_compute in (%s)." % " ++ ".join(evals))
+        out = coq_eval("k3_%s_%d" % (tag, si), "\n".join(body))
+        return [local[n] for n in parse_nums(out)]
+
+    res = par(run, list(enumerate(shards)))
+    dis = [x for r in res for x in r]
+    return len(flat), dis
+
+
+def k3_show(ast, kind, off, hx, tag="show"):
+    kk = dexp_of_reader(kind) if kind.startswith("@") else "(KType %s)" % ct.cstr(kind)
+    body = ["From XdrModel Require Import Canon.", "Open Scope string_scope.",
+            "Eval vm_compute in (k3_show2 %s %s %d%%N %s)." % (ct.ast(ast), kk, off, ct.cstr(hx))]
+    out = coq_eval("k3_show_" + tag, "\n".join(body))
+    m = re.search(r'=\s*"(.*)"\s*:\s*string', out, re.S)
+    return re.sub(r'\s*\n\s*', ' ', m.group(1)) if m else out
